@@ -93,7 +93,7 @@ func TestTraceFaults(t *testing.T) {
 				for burst := 1; burst <= 3; burst += 2 {
 					fp := faultPlan{simdisk.Fault{Kind: k, Ordinal: ord, Burst: burst, Mode: m}}
 					fmt.Fprintf(os.Stderr, "plan %s\n", fp.String())
-					_, v := runWithFault(&p, fp, skip)
+					_, v := runWithFault(&p, fp, skip, true)
 					if v != nil {
 						fmt.Fprintf(os.Stderr, "   -> %v\n", v)
 					}
